@@ -90,22 +90,28 @@ def _history(args):
                             ["post_detach"], ["pre_attach_children"]))
         return {"mode": "persist", "ks": [], "kinds": kinds, "nodes": sorted(rnd.sample(labels, rnd.randint(1, size)))}
 
+    pending = []
     for step in range(steps):
         r = rnd.random()
         prepar, prech = N.snapshot()
-        if r < (0.55 if names is None else 0.40):
+        if r < (0.55 if names is None else 0.40) or pending:
             # ---- a mutator call
             kind = rnd.choice(("sp", "sp", "sp", "sc", "sc", "dc"))
             n = rnd.choice(labels)
             call = {"k": kind, "n": n, "v": "Nil", "xs": [], "bad": False}
-            if kind == "sp":
+            if pending:
+                # the node whose last children assignment failed under a persistent veto is asked again, this time for
+                # something that is refused half-way (a loop) with no fault injected: the refusal must still restore everything
+                kind, n = "sc", pending.pop()
+                call = {"k": kind, "n": n, "v": "Nil", "xs": [rnd.choice([l for l in labels if l != n] or [n]), n], "bad": False}
+            elif kind == "sp":
                 call["v"] = rnd.choice(labels + ["Nil", "Nil"])
             elif kind == "sc":
                 xs = rnd.sample(labels, rnd.randint(0, 4))
                 if xs and rnd.random() < 0.1:
                     xs.append(xs[0])
                 call["xs"] = xs
-            p = plan()
+            p = plan() if len(call["xs"]) != 2 or call["xs"][1] != n else {"mode": "none", "ks": [], "kinds": [], "nodes": []}
             N.reset(p)
             exc, src = "Nil", 0
             def _mutate():
@@ -131,6 +137,8 @@ def _history(args):
             ops.append(ev)
             if not well_formed(postpar, postch):
                 break
+            if kind == "sc" and p["mode"] == "persist" and exc != "Nil" and rnd.random() < 0.8:
+                pending.append(n)
         elif r < 0.50 and names is not None:
             # ---- rename a node (changes what paths denote; the resolvers below are long-lived objects)
             # (preferably a node a path was just resolved to: a resolver that remembers results must notice)
